@@ -876,7 +876,18 @@ class C19(Base):
             g = gen.DocGen(rng, depth=rng.choice([2, 3]), times=TIMES, names=NAMES, p_ready=1.0, p_skip=0.05, p_unwrap=0.35, unique=True,
                            kinds=("tl", "tl", "rm", "rm", "zz"), p_inline=0.1)
             items = g.doc()
-            hists.append(self.mk_history(gen.render(items, final_nl=rng.random() < 0.8), self.chain(rng), "history"))
+            label = "history"
+            if i % 6 == 0:
+                # unwrap-blocks whose wrapper line is another element's tag line (no code line of their own)
+                for e in gen.all_elements(items):
+                    if e.unwrap and e.children and rng.random() < 0.7:
+                        if isinstance(e.children[0], gen.El):
+                            e.wrap_open = None
+                            label = "history+bare-unwrap"
+                        if isinstance(e.children[-1], gen.El) and rng.random() < 0.7:
+                            e.wrap_close = None
+                            label = "history+bare-unwrap"
+            hists.append(self.mk_history(gen.render(items, final_nl=rng.random() < 0.8), self.chain(rng), label))
             if len(hists) >= 2000:
                 yield from self.build(hists)
                 hists = []
@@ -890,6 +901,34 @@ class C19(Base):
             t = l.strip(" \t")
             if t.endswith(">") and t.find("<") > 0:
                 return True
+        return False
+
+    TAG_RE = re.compile(r"<(/?)([A-Za-z]+)([^<>]*)>")
+
+    def region_wrapper_line_is_tag(self, case, verdict):
+        """some unwrap-block has a wrapper line (the line after its opening tag / before its closing tag) that carries a tag of
+        another element, or has no two distinct wrapper lines at all"""
+        if verdict.get("fail") != "C19-composition":
+            return False
+        src = case.meta["src"]
+        lines = src.split("\n")
+        stack = []
+        for ln, l in enumerate(lines):
+            for m in self.TAG_RE.finditer(l):
+                closing, name, attrs = m.group(1), m.group(2), m.group(3)
+                if not closing:
+                    stack.append((name, ln, "unwrap-block" in attrs.split()))
+                else:
+                    for k in range(len(stack) - 1, -1, -1):
+                        if stack[k][0] == name:
+                            _, oln, unwrap = stack[k]
+                            del stack[k:]
+                            if unwrap:
+                                if ln - oln < 3:
+                                    return True
+                                if "<" in lines[oln + 1] or "<" in lines[ln - 1]:
+                                    return True
+                            break
         return False
 
     def oracle(self, case, impl, spec):
